@@ -29,42 +29,26 @@ def default_compare(case, verdict):
 PREDICATES = {}
 
 PROPS = {}
-
-# ---------------------------------------------------------------------------------------------- C09
-
-
-def c09_nontrivial(case, v):
-    k = case.get("k")
-    if k in ("goal", "icmp"):
-        m = case.get("impl")
-        flat = [x for row in m for x in row]
-        specials = {0, 1 << 63, 0x7ff0 << 48, 0xfff0 << 48, 0x7ff8 << 48}
-        vals = []
-
-        def walk(x):
-            if isinstance(x, list):
-                for y in x:
-                    walk(y)
-            else:
-                vals.append(x)
-        walk(case.get("vecs"))
-        has_special = any((x in specials) or (x >> 52) & 0x7ff == 0x7ff for x in vals)
-        lens = {len(x) for x in case.get("vecs")} if k == "icmp" else {0, 1}
-        return any(x != 0 for x in flat) and (has_special or len(lens) > 1)
-    if k == "iarith":
-        return len(case["x"]) != len(case["y"]) and len(case["x"]) + len(case["y"]) > 0
-    return k == "dom" and len(set(case["os"])) > 1
+META = {}
+NOT_CLAIMED = {}
 
 
-PROPS["C09"] = dict(
-    proof_modules=["VrpProofs.C09"], model_modules=["VrpModel.C09"], drv="drv_c09", bin="c09",
-    nontrivial=c09_nontrivial,
-    rule="goal/icmp: comparison matrix not all-equal and (a special value ±0/±inf/NaN occurs or the vectors have "
-         "different lengths); iarith: vectors of different lengths; dom: at least two different orderings; "
-         "distinct = SHA-256 of the canonical case input",
-    modelled="Goal::total_order, GoalBuilder::add_single comparator, dominance_order, multi-objective layer composition, "
-             "impl Ord/PartialEq/Add/Sub for InsertionCost (bit-exact comparison; exact integer arithmetic)",
-    out_of_model="f64 rounding of + and - (the inverse law is proved over Int and checked on integer-valued vectors)",
-    assumptions=["fitness values are planted through a test objective (public FeatureObjective trait); "
-                 "arithmetic cases use integers below 2^41 so that f64 + and - are exact"],
-)
+def _load():
+    import importlib.util, os, glob
+    d = os.path.join(os.path.dirname(os.path.abspath(__file__)), "propcfg")
+    for f in sorted(glob.glob(os.path.join(d, "C*.py"))):
+        pid = os.path.basename(f)[:-3]
+        spec = importlib.util.spec_from_file_location("propcfg_" + pid, f)
+        m = importlib.util.module_from_spec(spec)
+        spec.loader.exec_module(m)
+        if getattr(m, "CLAIMED", True):
+            PROPS[pid] = m.PROP
+            META[pid] = m.META
+        else:
+            NOT_CLAIMED[pid] = getattr(m, "REASON", "not claimed")
+        PREDICATES.update(getattr(m, "PREDICATES", {}))
+
+
+
+
+_load()
